@@ -1151,6 +1151,62 @@ func c12LongLines(fs framingSpec, quick bool) *Scenario {
 	}
 }
 
+// c12Stale: what Recv yields after a rejected header block must not depend on the FIELDS of that
+// block. Streams E+T and E'+T, where E and E' are rejected at the same (colon-less) line but carry
+// different Content-Length / Content-Type fields before it, must continue identically on T.
+func c12Stale(fs framingSpec) *Scenario {
+	return &Scenario{
+		Name:       fmt.Sprintf("streams %s: a rejected header block leaves nothing behind for the next Recv", fs.Name),
+		Params:     map[string]any{"framing": fs.Name, "rejected_blocks": "fields (none / Content-Length / Content-Type / both) followed by a line without colon", "tails": 12},
+		MemLimitMB: 4096,
+		Seq: func(r *SeqRun) {
+			fields := []string{"", "Content-Length: 3\r\n", "Content-Type: a/b\r\n", "Content-Type: c/d\r\n", "Content-Length: 3\r\nContent-Type: " + fs.MType + "\r\n", "content-length: 1\r\n", "Content-Length: 3\n"}
+			bads := []string{"bogus\r\n", "bogus\n", "no colon here\r\n"}
+			ct := ""
+			if fs.MType != "" {
+				ct = "Content-Type: " + fs.MType + "\r\n"
+			}
+			tails := []string{"\r\nabc", "\r\n", "\n\nabc", "X-Other: q\r\n\r\nabc", "Content-Type: a/b\r\n\r\nabc", ct + "\r\nabc", "Content-Length: 1\r\n\r\nabc", ct + "Content-Length: 2\r\n\r\nabcd",
+				"Content-Length: 0\r\n\r\n" + ct + "\r\nabc", "abc", "", "Content-Length: x\r\n\r\nabc"}
+			run := func(stream string) string {
+				ch := fs.F(&cutReader{data: []byte(stream)}, &bufWC{})
+				var sb strings.Builder
+				p := guarded(func() {
+					for i := 0; i < 6; i++ {
+						b, err := ch.Recv()
+						r.Calls(1)
+						if i == 0 {
+							if err == nil {
+								sb.WriteString("first-accepted;")
+							}
+							continue // the rejected block itself
+						}
+						fmt.Fprintf(&sb, "%q/%v;", b, err == nil)
+					}
+				})
+				if p != "" {
+					sb.WriteString("panic:" + p)
+				}
+				return sb.String()
+			}
+			for _, bad := range bads {
+				for _, tl := range tails {
+					base := run(bad + tl)
+					for _, f := range fields[1:] {
+						got := run(f + bad + tl)
+						r.Case(fs.Name+"/stale", true)
+						Hit("C12.R5")
+						if got != base {
+							r.Fail("C12.R5", fmt.Sprintf("%s stream=%q", fs.Name, f+bad+tl), fmt.Sprintf("after the rejected block the Recv calls yield %s; with the same block without its fields (%q) they yield %s: fields of a rejected header block leak into the next record", got, bad+tl, base), "")
+						}
+					}
+				}
+			}
+			r.Sample(map[string]any{"framing": fs.Name, "stream": "Content-Length: 3\r\nbogus\r\n\r\nabc", "compared_with": "bogus\r\n\r\nabc"})
+		},
+	}
+}
+
 func c12Scenarios(tier string) []*Scenario {
 	var out []*Scenario
 	q := tier == "quick"
@@ -1161,7 +1217,7 @@ func c12Scenarios(tier string) []*Scenario {
 		out = append(out, c12Split(fss[0], 9), c12Split(fss[1], 9), c12Split(framingByName("Split(0xff)"), 8))
 	}
 	for _, fs := range fss[2:6] {
-		out = append(out, c12HeaderValid(fs), c12LongLines(fs, q))
+		out = append(out, c12HeaderValid(fs), c12LongLines(fs, q), c12Stale(fs))
 		for _, first := range hdrTokens {
 			ml := 4
 			if !q {
